@@ -7,7 +7,7 @@ import operator
 from collections import defaultdict
 import difflib
 
-from ..diff_format import SequenceDiffBuilder, MappingDiffBuilder, validate_diff
+from ..diff_format import SequenceDiffBuilder, MappingDiffBuilder, validate_diff, Missing
 from ..diff_utils import count_consumed_symbols
 from ..utils import json_equal
 
@@ -209,8 +209,27 @@ def diff_dicts(a, b, path="", config=None):
 
     di = MappingDiffBuilder()
 
+    def onesided_ignored(key, avalue, bvalue):
+        # A differ configured for the path of a key present on one side only
+        # (e.g. to ignore it) decides whether there is anything to report,
+        # as it does for keys present on both sides
+        subpath = "/".join((path, key))
+        differ = config.differs.get(subpath)
+        default = getattr(config.differs, 'default_values', {}).get(subpath, diff)
+        if differ is None or differ is diff or differ is default:
+            return False
+        value = bvalue if avalue is Missing else avalue
+        if not isinstance(value, (str, list, dict)):
+            return False
+        empty = type(value)()
+        if avalue is Missing:
+            return not differ(empty, bvalue, path=subpath, config=config)
+        return not differ(avalue, empty, path=subpath, config=config)
+
     # Sorting keys in loops to get a deterministic diff result
     for key in sorted(akeys - bkeys):
+        if onesided_ignored(key, a[key], Missing):
+            continue
         di.remove(key)
 
     # Handle values for keys in both a and b
@@ -247,6 +266,8 @@ def diff_dicts(a, b, path="", config=None):
                 di.replace(key, bvalue)
 
     for key in sorted(bkeys - akeys):
+        if onesided_ignored(key, Missing, b[key]):
+            continue
         di.add(key, b[key])
 
     return di.validated()
